@@ -668,6 +668,11 @@ func init() {
 						r.Fail(c10Key("isDistinct", dupClass, lenClass(L), c10Disc(ri)), core.W{"c": c10Ids(c), "isDistinct": ri.String(), "count()=distinct().count()": rdc.String(), "want": len(classes) == L})
 					}
 				}},
+				{Name: "large-collections", N: len(c10LargeCases(tier)), Note: "collections of 7..1025 (thorough: ..10000) items around powers of two x 6 textures (distinct integers, three recurring integers, five recurring strings, Integer / Decimal alternation of equal values, one late duplicate, complex elements with equal copies): where / exists / all for 4-5 criteria, select, first / last / tail / take / skip / indexer at 10 positions with the partition law, distinct, isDistinct, exclude and intersect for 7 arguments drawn from the collection", Run: func(i int, r *core.Rec) {
+					before := r.Evals
+					c10LargeOne(r, c10LargeCases(tier)[i])
+					r.NontrivialByConstruction(r.Evals - before)
+				}},
 				{Name: "set-functions-fhir-primitives", N: c10Count(len(c10FHIRAlphabet()), 2) * c10Count(len(c10FHIRAlphabet()), 2), Note: "the same over FHIR primitive elements that are equal as values but not as messages (a string with and without an element id, decimals 1.0 / 1.00) mixed with System values, collections of length <=2", Run: func(i int, r *core.Rec) {
 					al := c10FHIRAlphabet()
 					n := c10Count(len(al), 2)
